@@ -394,7 +394,38 @@ def gen_topo():
     return {"edges": rows}
 
 
-GENERATORS = [("GenPipeline", gen_pipeline), ("GenTopo", gen_topo), ("GenTokens", gen_tokens), ("GenLegend", gen_legend), ("GenDecoders", gen_decoders)]
+# ------------------------------------------------------------------------------------------
+# stages.rs -> GenStages.v: the ordered transforms and rules, and how their results are combined
+# ------------------------------------------------------------------------------------------
+def gen_stages():
+    src = read("compiler/analyzer/src/stages.rs").split("#[cfg(test)]")[0]
+    m = re.search(r"let xforms: Vec<fn\(Library\) -> Result<Library, Vec<Diagnostic>>> = vec!\[(.*?)\];", src, re.S)
+    if not m:
+        raise Refuse("stages.rs: transform list not found")
+    xforms = re.findall(r"(\w+)::apply", m.group(1))
+    m = re.search(r"let functions: Vec<fn\(&Library\) -> SemanticResult> = vec!\[(.*?)\];", src, re.S)
+    if not m:
+        raise Refuse("stages.rs: rule list not found")
+    rules = re.findall(r"(\w+)::apply", m.group(1))
+    sq = " ".join(code_lines(src))
+    for frag in ["for xform in xforms { library = xform(library)? }", "Err(diagnostics) => { all_diagnostics.extend(diagnostics); }",
+                 "if !all_diagnostics.is_empty() { return Err(all_diagnostics); }", "let library = resolve_types(sources)?;",
+                 "let result = semantic(&library);", "if sources.is_empty() {", "Problem::NoContent,"]:
+        if frag not in sq:
+            raise Refuse("stages.rs: no longer has the modelled shape (missing %r)" % frag)
+    # every rule / transform module named in stages.rs must exist
+    for n in xforms + rules:
+        if not os.path.exists(os.path.join(REPO, "compiler/analyzer/src", n + ".rs")):
+            raise Refuse("stages.rs: module %s not found" % n)
+    o = ["(* GENERATED by tools/translate.py from compiler/analyzer/src/stages.rs -- do not edit *)",
+         "From Coq Require Import List String.", "Import ListNotations.", "Local Open Scope string_scope.", "",
+         "Definition stage_xforms : list string := [" + "; ".join(coq_string(x) for x in xforms) + "].",
+         "Definition stage_rules : list string := [" + "; ".join(coq_string(x) for x in rules) + "].", ""]
+    write_if_changed("GenStages.v", "\n".join(o) + "\n")
+    return {"xforms": xforms, "rules": rules}
+
+
+GENERATORS = [("GenPipeline", gen_pipeline), ("GenTopo", gen_topo), ("GenStages", gen_stages), ("GenTokens", gen_tokens), ("GenLegend", gen_legend), ("GenDecoders", gen_decoders)]
 
 
 def main():
